@@ -281,6 +281,97 @@ end Oslo.Version.Gen
 
 
 # --------------------------------------------------------------------------
+# the pinned public signatures (as on the clean tree - written down here, NOT read from the tree under
+# test) and every legal way of calling them
+
+REQUIRED = '<required>'
+SIGNATURES = {
+    'is_compatible': [('requested_version', REQUIRED), ('current_version', REQUIRED), ('same_major', True)],
+    'convert_version_to_int': [('version', REQUIRED)],
+    'convert_version_to_str': [('version_int', REQUIRED)],
+    'convert_version_to_tuple': [('version_str', REQUIRED)],
+    'VersionPredicate': [('predicate_str', REQUIRED)],          # the constructor
+    'satisfied_by': [('version_str', REQUIRED)],                # method of VersionPredicate
+}
+# `same_major` is a truth value: anything truthy switches the major check on, anything falsy off
+FLAG_VALUES = {True: [True, 1, 2, 'no', 'False', [0]], False: [False, 0, '', None, 0.0, []]}
+
+
+def _forms(name):
+    """{label: (n positional, keyword names in order, omitted names)} - the first n parameters positionally,
+    the others by keyword in every order, optional ones also left out"""
+    params = SIGNATURES[name]
+    names = [n for n, _ in params]
+    optional = [n for n, d in params if d is not REQUIRED]
+    out = {}
+    for npos in range(len(names), -1, -1):
+        rest = names[npos:]
+        omittable = [n for n in rest if n in optional]
+        for k in range(len(omittable) + 1):
+            for omitted in itertools.combinations(omittable, k):
+                for kw in itertools.permutations([n for n in rest if n not in omitted]):
+                    label = 'p%d' % npos + ('/' + ','.join(kw) if kw else '') + ('-' + ','.join(omitted) if omitted else '')
+                    out[label] = (npos, list(kw), list(omitted))
+    return out
+
+
+FORMS = {name: _forms(name) for name in SIGNATURES}
+DEFAULT_FORM = {name: 'p%d' % len(SIGNATURES[name]) for name in SIGNATURES}
+DEFAULT_FORM['is_compatible'] = 'p2/same_major'
+KW_FORM = {name: 'p0/' + SIGNATURES[name][0][0] for name in SIGNATURES if len(SIGNATURES[name]) == 1}
+
+
+def applicable_forms(name, logical):
+    """labels of the forms that can express these logical arguments (a parameter may only be left out when
+    its logical value is the pinned default)"""
+    defaults = dict(SIGNATURES[name])
+    return [lab for lab, (_, _, omitted) in FORMS[name].items()
+            if all(logical[n] is defaults[n] or (type(logical[n]) is type(defaults[n]) and logical[n] == defaults[n])
+                   for n in omitted)]
+
+
+def bind(name, form, logical):
+    """(args, kwargs) of the call form"""
+    npos, kw, _omitted = FORMS[name][form or DEFAULT_FORM[name]]
+    names = [n for n, _ in SIGNATURES[name]]
+    return [logical[n] for n in names[:npos]], {n: logical[n] for n in kw}
+
+
+def show_call(name, form, logical):
+    args, kwargs = bind(name, form, logical)
+    return '%s(%s)' % (name, ', '.join([repr(a)[:70] for a in args] + ['%s=%s' % (k, repr(v)[:70]) for k, v in kwargs.items()]))
+
+
+def compat_logical(case):
+    return {'requested_version': case['req'], 'current_version': case['cur'],
+            'same_major': FLAG_VALUES[bool(case['same_major'])][case.get('flag', 0)]}
+
+
+def call_compat(case):
+    """is_compatible in the call form and flag spelling the case asks for (raises what the call raises)"""
+    args, kwargs = bind('is_compatible', case.get('form'), compat_logical(case))
+    return vu().is_compatible(*args, **kwargs)
+
+
+def show_compat(case):
+    return show_call('is_compatible', case.get('form'), compat_logical(case))
+
+
+def call1(target, name, value, kw=False):
+    """a one-parameter public callable, positionally or by its pinned parameter name"""
+    if kw:
+        return target(**{SIGNATURES[name][0][0]: value})
+    return target(value)
+
+
+def random_compat_form(rng, same_major):
+    """(form label, flag index): mostly varied - each optional parameter positional / keyword / omitted,
+    keyword order permuted, the flag as bool and as another truthy / falsy value"""
+    forms = applicable_forms('is_compatible', {'requested_version': '', 'current_version': '', 'same_major': bool(same_major)})
+    return rng.choice(forms), (0 if rng.random() < 0.6 else rng.randrange(len(FLAG_VALUES[bool(same_major)])))
+
+
+# --------------------------------------------------------------------------
 # running the implementation, canonical outputs
 
 def vu():
@@ -351,17 +442,19 @@ def impl_conv(case):
     m = vu()
     fn = case['fn']
     try:
+        kw = bool(case.get('kw'))
         if fn == 'tuple':
-            r = m.convert_version_to_tuple(case['s'])
+            r = call1(m.convert_version_to_tuple, 'convert_version_to_tuple', case['s'], kw)
             if type(r) is tuple and all(type(x) is int for x in r):
                 return 'ok:' + (','.join(big_str(x) for x in r) or '-')
             return 'other:' + repr(r)[:60]
         if fn == 'int_s':
-            return canon_int_result(m.convert_version_to_int(case['s']))
+            return canon_int_result(call1(m.convert_version_to_int, 'convert_version_to_int', case['s'], kw))
         if fn == 'int_t':
-            return canon_int_result(m.convert_version_to_int(tuple(case['t'])))
+            return canon_int_result(call1(m.convert_version_to_int, 'convert_version_to_int', tuple(case['t']), kw))
         if fn == 'int_o':
-            return canon_int_result(m.convert_version_to_int(OTHER_INPUTS[case['kind']]))
+            return canon_int_result(call1(m.convert_version_to_int, 'convert_version_to_int',
+                                          OTHER_INPUTS[case['kind']], kw))
         if fn == 'str':
             n = case['n']
             if n < 0:
@@ -372,7 +465,7 @@ def impl_conv(case):
                     return 'diverges'
                 r = got[1]
             else:
-                r = m.convert_version_to_str(n)
+                r = call1(m.convert_version_to_str, 'convert_version_to_str', n, kw)
             return 'str:' + hexs(r) if type(r) is str else 'other:' + repr(r)[:60]
     except Exception as e:
         return type(e).__name__
@@ -436,7 +529,7 @@ def dict_field(parsed, rank):
 
 def impl_compat(case):
     try:
-        r = vu().is_compatible(case['req'], case['cur'], same_major=case['same_major'])
+        r = call_compat(case)
         return 'bool:%d' % r if type(r) is bool else 'other:' + repr(r)[:60]
     except Exception as e:
         return type(e).__name__
@@ -446,7 +539,7 @@ def impl_pred(case, rank_of):
     """rank_of(Version) -> rank in this case's dictionary (for the white-box `pred` list)"""
     m = vu()
     try:
-        vp = m.VersionPredicate(case['pred'])
+        vp = call1(m.VersionPredicate, 'VersionPredicate', case['pred'], case.get('kw_init'))
     except Exception as e:
         return 'init:' + type(e).__name__
     pairs = parsed_pairs(vp)
@@ -455,7 +548,7 @@ def impl_pred(case, rank_of):
     else:
         wb = '\tconds=' + (','.join('%s:%s' % (hexs(c), rank_of(v)) for c, v in pairs) or '-')
     try:
-        r = vp.satisfied_by(case['ver'])
+        r = call1(vp.satisfied_by, 'satisfied_by', case['ver'], case.get('kw'))
         return ('bool:%d' % r if type(r) is bool else 'other:' + repr(r)[:60]) + wb
     except Exception as e:
         return 'sat:' + type(e).__name__ + wb
@@ -773,6 +866,7 @@ def gen_compat_case(rng):
         a, b = b, a
     case = {'fn': 'compat', 'req': render_v(a, rng), 'cur': render_v(b, rng), 'same_major': rng.random() < 0.5,
             'req_struct': a, 'cur_struct': b}
+    case['form'], case['flag'] = random_compat_form(rng, case['same_major'])
     x = rng.random()
     if x < 0.06:
         case['req'] = rng.choice(BAD_VERSIONS)
@@ -795,7 +889,7 @@ def gen_pred_case(rng):
         vs = ''.join(ch for ch in vs if not ch.isspace())
         pieces.append([ws(rng), op, ws(rng), vs, ws(rng)])
     case = {'fn': 'pred', 'comps': [[op, v] for op, v in comps], 'ver_struct': cand, 'ver': render_v(cand, rng),
-            'malformed': None}
+            'malformed': None, 'kw_init': rng.random() < 0.2, 'kw': rng.random() < 0.2}
     x = rng.random()
     if x < 0.3:
         i = rng.randrange(k)
@@ -850,29 +944,39 @@ def run_calls(case):
     `pred` (if any) is constructed once; every 'sat' call goes to that one object.
     Returns one {'out': canonical text, 've': raised a ValueError?} per call ('init:…' alone if the
     constructor raised) plus, last, the white-box pair list before/after when it can be located."""
+    import copy
+    import pickle
     m = vu()
     outs = []
-    vp = None
+    objs = []
     if case.get('pred') is not None:
         try:
-            vp = m.VersionPredicate(case['pred'])
+            objs.append(call1(m.VersionPredicate, 'VersionPredicate', case['pred'], case.get('kw_init')))
         except Exception as e:
             return [_exc_out('init:', e)]
     for c in case['calls']:
         op = c['op']
         try:
-            if op == 'sat':
-                r = vp.satisfied_by(c['ver'])
+            if op == 'clone':       # a second object made from a (used) one; both stay in use
+                src = objs[c.get('of', 0)]
+                objs.append(copy.copy(src) if c['how'] == 'copy' else copy.deepcopy(src) if c['how'] == 'deepcopy'
+                            else pickle.loads(pickle.dumps(src)))
+                outs.append({'out': 'cloned'})
+            elif op == 'sat':
+                if c.get('obj', 0) >= len(objs):
+                    outs.append({'out': 'no-object'})
+                    continue
+                r = call1(objs[c.get('obj', 0)].satisfied_by, 'satisfied_by', c['ver'], c.get('kw'))
                 outs.append({'out': 'bool:%d' % r if type(r) is bool else 'other:' + repr(r)[:60]})
             elif op == 'compat':
-                r = m.is_compatible(c['req'], c['cur'], same_major=c['same_major'])
+                r = call_compat(c)
                 outs.append({'out': 'bool:%d' % r if type(r) is bool else 'other:' + repr(r)[:60]})
             else:
                 outs.append({'out': impl_conv(dict(c, fn=op))})
                 if outs[-1]['out'] in ('ValueError', 'TypeError') or outs[-1]['out'].endswith('Error'):
                     outs[-1]['ve'] = outs[-1]['out'] == 'ValueError'
         except Exception as e:
-            outs.append(_exc_out('sat:' if op == 'sat' else '', e))
+            outs.append(_exc_out('sat:' if op == 'sat' else 'clone:' if op == 'clone' else '', e))
     return outs
 
 
@@ -903,15 +1007,20 @@ def run_calls_fresh(case, timeout=20):
 
 
 def _call_key(c):
-    return repr(sorted((k, repr(v)) for k, v in c.items() if not k.endswith('struct')))
+    """equal LOGICAL arguments (the call form, the spelling of the flag and which copy of the predicate object
+    is asked do not count)"""
+    return repr(sorted((k, repr(v)) for k, v in c.items()
+                       if not k.endswith('struct') and k not in ('form', 'flag', 'kw', 'obj')))
 
 
 def _show_call(c):
     op = c['op']
+    if op == 'clone':
+        return 'object %d = %s(object %d)' % (c.get('new', 1), c['how'], c.get('of', 0))
     if op == 'sat':
-        return 'satisfied_by(%r)' % c['ver']
+        return 'object %d.satisfied_by(%s%r)' % (c.get('obj', 0), 'version_str=' if c.get('kw') else '', c['ver'])
     if op == 'compat':
-        return 'is_compatible(%r, %r, same_major=%r)' % (c['req'], c['cur'], c['same_major'])
+        return show_compat(c)
     name = {'tuple': 'convert_version_to_tuple', 'int_s': 'convert_version_to_int', 'int_t': 'convert_version_to_int',
             'str': 'convert_version_to_str'}[op]
     arg = c.get('s', tuple(c['t']) if 't' in c else c.get('n'))
@@ -939,6 +1048,8 @@ def judge_calls(case, outs):
     first = {}
     for k, (c, o) in enumerate(zip(calls, outs)):
         out = o['out']
+        if c['op'] == 'clone' or out == 'no-object':
+            continue
         want = None                     # expected canonical text, 'VE' for "must raise a ValueError", None = silent
         if c['op'] == 'sat' and case.get('comps') is not None:
             st = c.get('ver_struct')
@@ -989,7 +1100,7 @@ def judge_calls(case, outs):
     return None
 
 
-def gen_sat_sequence(rng):
+def gen_sat_sequence(rng, clones=True):
     """one predicate object and a sequence of candidates with immediate repeats, returns to earlier
     candidates, alternation between satisfying and failing ones and invalid candidates in between"""
     c = gen_pred_case(rng)
@@ -1011,15 +1122,25 @@ def gen_sat_sequence(rng):
             texts[i] = render_v(pool[i], rng if rng.random() < 0.5 else None)
         return {'op': 'sat', 'ver': texts[i], 'ver_struct': pool[i]}
     calls = []
+    nobj = 1
     for _ in range(rng.randrange(3, 10)):
         x = rng.random()
-        if calls and x < 0.35:
-            calls.append(dict(calls[-1]))
-        elif len(calls) > 1 and x < 0.55:
-            calls.append(dict(rng.choice(calls)))
+        sat = [q for q in calls if q['op'] == 'sat']
+        if sat and x < 0.35:
+            new = dict(sat[-1])
+        elif len(sat) > 1 and x < 0.55:
+            new = dict(rng.choice(sat))
         else:
-            calls.append(pick())
-    return {'prop': 'seq', 'fn': 'seq', 'pred': c['pred'], 'comps': c['comps'],
+            new = pick()
+        if clones and calls and nobj < 3 and rng.random() < 0.15:
+            # copy / deepcopy / pickle round trip of the half-used object; both objects stay in use
+            calls.append({'op': 'clone', 'how': rng.choice(['copy', 'deepcopy', 'pickle']), 'of': rng.randrange(nobj),
+                          'new': nobj})
+            nobj += 1
+        new['obj'] = rng.randrange(nobj)
+        new['kw'] = rng.random() < 0.15
+        calls.append(new)
+    return {'prop': 'seq', 'fn': 'seq', 'pred': c['pred'], 'comps': c['comps'], 'kw_init': rng.random() < 0.15,
             'malformed': None if c['malformed'] == 'badcand' else c['malformed'], 'calls': calls}
 
 
@@ -1048,15 +1169,20 @@ def gen_call_sequence(rng):
     calls = []
     for _ in range(rng.randrange(4, 11)):
         if calls and rng.random() < 0.3:
-            calls.append(dict(calls[-1]))
+            new = dict(calls[-1])
         else:
-            calls.append(dict(rng.choice(pool)))
+            new = dict(rng.choice(pool))
+        if new['op'] == 'compat':       # the same logical question in another call form / flag spelling
+            new['form'], new['flag'] = random_compat_form(rng, new['same_major'])
+        else:
+            new['kw'] = rng.random() < 0.2
+        calls.append(new)
     return {'prop': 'seq', 'fn': 'seq', 'pred': None, 'comps': None, 'malformed': None, 'calls': calls}
 
 
 def seq_line(case, strings):
     parsed, rank, bad = parse_versions(strings)
-    return req('predseq', hexs(case['pred']), ','.join(hexs(c['ver']) for c in case['calls']),
+    return req('predseq', hexs(case['pred']), ','.join(hexs(c['ver']) for c in case['calls'] if c['op'] == 'sat'),
                dict_field(parsed, rank)), parsed, rank, bad
 
 
@@ -1110,6 +1236,13 @@ def correspondence(ctx):
         cases.append(({'fn': 'str', 'n': n}, 'str/negative'))
     for kind in sorted(OTHER_INPUTS):
         cases.append(({'fn': 'int_o', 'kind': kind}, 'int_o/' + kind))
+    for c, _ in cases:
+        if rng.random() < 0.2:
+            c['kw'] = True
+    for fn, arg in (('tuple', {'s': '1.2.3rc1'}), ('int_s', {'s': '1.2.3'}), ('int_t', {'t': [1, 2, 3]}),
+                    ('str', {'n': 1002003}), ('int_o', {'kind': 'list'})):
+        for kwf in (False, True):
+            cases.append((dict({'fn': fn, 'kw': kwf}, **arg), fn + '/call-forms'))
     conv_replies = replies = ctx.driver.ask_many([line_conv(c) for c, _ in cases])
     for (case, tag), rep in zip(cases, replies):
         ctx.evaluations += 1
@@ -1164,6 +1297,14 @@ def correspondence(ctx):
                      ('1.0', '1.0rc1', True), ('1.0.dev1', '1.0a1', True), ('1.0.post1', '1.0', True),
                      ('1.0+abc', '1.0', True), ('1.0', '1.0+abc', True)]:
         vcases.append({'fn': 'compat', 'req': r, 'cur': c, 'same_major': sm})
+    for r, c in [('1.0', '2.0'), ('2.0', '1.0'), ('1.5', '1.5'), ('1.0', '1!0.5'), ('x', '1.0')]:
+        for sm in (True, False):
+            for form in applicable_forms('is_compatible', {'requested_version': r, 'current_version': c, 'same_major': sm}):
+                for flag in range(len(FLAG_VALUES[sm])):
+                    vcases.append({'fn': 'compat', 'req': r, 'cur': c, 'same_major': sm, 'form': form, 'flag': flag})
+    for kwi in (False, True):
+        for kwc in (False, True):
+            vcases.append({'fn': 'pred', 'pred': '>=1.0,<2', 'ver': '1.5', 'kw_init': kwi, 'kw': kwc})
     for p, v in [('>=1.0', '1.0'), ('>1.0', '1.0'), ('<=1.0', '1.0'), ('<1.0', '1.0'), ('==1.0', '1.0.0'),
                  ('!=1.0', '1.0.0'), ('>=1.0,<2.0', '1.5'), ('>=1.0,<2.0', '2.0'), (' >= 1.0 , != 1.5 , < 2 ', '1.5'),
                  ('<=', '1'), ('', '1'), (',', '1'), ('>=1.0,', '1'), ('>=1.0', 'x'), ('>=1.0 <2', '1')]:
@@ -1200,6 +1341,7 @@ def correspondence(ctx):
         if case['fn'] == 'compat':
             impl = impl_compat(case)
             ctx.count('corr/compat/' + impl)
+            ctx.count('corr/compat-form/' + case.get('form', 'default') + ('' if not case.get('flag') else '+flag-spelling'))
             if impl.startswith('bool'):
                 ctx.nontrivial(('compat', case['req'], case['cur'], case['same_major']))
         else:
@@ -1248,7 +1390,7 @@ def correspondence(ctx):
     sinfo, slines = [], []
     rx = clause_regex()
     for case in seqs:
-        strings = [c['ver'] for c in case['calls']]
+        strings = [c['ver'] for c in case['calls'] if c['op'] == 'sat']
         for piece in (case['pred'].split(',') if rx is not None else []):
             mm = rx.match(piece)
             if mm and mm.lastindex == 2:
@@ -1266,12 +1408,20 @@ def correspondence(ctx):
     for case, strings, rep in zip(seqs, sinfo, sreplies):
         ctx.evaluations += 1
         outs = run_calls(case)
-        impl = ';'.join(o['out'] for o in outs)
+        if len(outs) == len(case['calls']):
+            # the model has one stateless object: copies answer like the original; making a copy must work
+            impl = ';'.join(o['out'] for c, o in zip(case['calls'], outs) if c['op'] == 'sat')
+            bad_clone = [o['out'] for c, o in zip(case['calls'], outs) if c['op'] == 'clone' and o['out'] != 'cloned']
+            if bad_clone:
+                impl += ';' + bad_clone[0]
+            ctx.count('corr/seq/clones', sum(1 for c in case['calls'] if c['op'] == 'clone'))
+        else:
+            impl = ';'.join(o['out'] for o in outs)
         ctx.count('corr/seq/' + ('init-error' if impl.startswith('init:') else 'len%d' % min(len(outs), 9)))
         model = rep.split('\t')[0]
         if not impl.startswith('init:'):
-            ctx.nontrivial(('seq', case['pred'], tuple(c['ver'] for c in case['calls'])))
-        ctx.sample({'case': {'pred': case['pred'], 'calls': [c['ver'] for c in case['calls']]},
+            ctx.nontrivial(('seq', case['pred'], tuple(_show_call(c) for c in case['calls'])))
+        ctx.sample({'case': {'pred': case['pred'], 'calls': [_show_call(c) for c in case['calls']]},
                     'implementation': impl}, 8)
         if impl != model:
             out.append(Disagreement(case, impl, model))
@@ -1355,6 +1505,8 @@ def oracle(case):
     k = case['prop']
     if k == 'seq':
         return judge_calls(case, run_calls(case))
+    kw = bool(case.get('kw'))
+    kwn = lambda name: name + '=' if kw else ''
     if k == 'spec':
         s = case['s']
         verdict = spec_verdict(s)
@@ -1362,37 +1514,42 @@ def oracle(case):
             return None
         if verdict[0] == 'raise':
             for f in (m.convert_version_to_tuple, m.convert_version_to_int):
-                why = _raises_valueerror(f, s)
+                why = _raises_valueerror(call1, f, f.__name__, s, kw)
                 if why:
-                    return '%s(%r) %s: a component is neither numeric nor a number followed by ' \
-                           'a|alpha|b|beta|rc and digits' % (f.__name__, s, why[:120])
+                    return '%s(%s%r) %s: a component is neither numeric nor a number followed by ' \
+                           'a|alpha|b|beta|rc and digits' % (f.__name__, kwn(SIGNATURES[f.__name__][0][0]), s, why[:120])
             return None
         want = tuple(verdict[1])
-        got = _try(m.convert_version_to_tuple, s)
+        got = _try(call1, m.convert_version_to_tuple, 'convert_version_to_tuple', s, kw)
         if got != want:
-            return 'convert_version_to_tuple(%r) = %s, the components are %s' % (s, repr(got)[:80], repr(want)[:80])
-        gi, wi = _try(m.convert_version_to_int, s), _try(m.convert_version_to_int, want)
+            return 'convert_version_to_tuple(%s%r) = %s, the components are %s' % (
+                kwn('version_str'), s, repr(got)[:80], repr(want)[:80])
+        gi = _try(call1, m.convert_version_to_int, 'convert_version_to_int', s, kw)
+        wi = _try(call1, m.convert_version_to_int, 'convert_version_to_int', want, kw)
         if type(gi) is not int or gi != wi:
-            return 'convert_version_to_int(%r) = %s but of its component tuple %s' % (s, repr(gi)[:60], repr(wi)[:60])
+            return 'convert_version_to_int(%s%r) = %s but of its component tuple %s' % (
+                kwn('version'), s, repr(gi)[:60], repr(wi)[:60])
         return None
     if k == 'roundtrip':
         t = case['t']
         s = '.'.join(map(str, t))
         for label, arg in (('str', s), ('tuple', tuple(t))):
-            i = _try(m.convert_version_to_int, arg)
+            i = _try(call1, m.convert_version_to_int, 'convert_version_to_int', arg, kw)
             if type(i) is not int:
-                return 'convert_version_to_int(%r) gave %r' % (arg, i)
-            back = _try(m.convert_version_to_str, i)
+                return 'convert_version_to_int(%s%r) gave %r' % (kwn('version'), arg, i)
+            back = _try(call1, m.convert_version_to_str, 'convert_version_to_str', i, kw)
             if back != s:
-                return 'convert_version_to_str(convert_version_to_int(%r)) = %r, not %r' % (arg, back, s)
-        tt = _try(m.convert_version_to_tuple, s)
+                return 'convert_version_to_str(%sconvert_version_to_int(%s%r)) = %r, not %r' % (
+                    kwn('version_int'), kwn('version'), arg, back, s)
+        tt = _try(call1, m.convert_version_to_tuple, 'convert_version_to_tuple', s, kw)
         if tt != tuple(t):
-            return 'convert_version_to_tuple(%r) = %r' % (s, tt)
+            return 'convert_version_to_tuple(%s%r) = %r' % (kwn('version_str'), s, tt)
         return None
     if k == 'order':
         a, b = tuple(case['a']), tuple(case['b'])
         for conv in (lambda t: t, lambda t: '.'.join(map(str, t))):
-            ia, ib = _try(m.convert_version_to_int, conv(a)), _try(m.convert_version_to_int, conv(b))
+            ia = _try(call1, m.convert_version_to_int, 'convert_version_to_int', conv(a), kw)
+            ib = _try(call1, m.convert_version_to_int, 'convert_version_to_int', conv(b), kw)
             if type(ia) is not int or type(ib) is not int:
                 return 'convert_version_to_int gave %r / %r' % (ia, ib)
             if (ia < ib) != (a < b) or (ia == ib) != (a == b) or (ia > ib) != (a > b):
@@ -1401,10 +1558,12 @@ def oracle(case):
         return None
     if k == 'suffix':
         s, suf = case['s'], case['marker'] + case['digits'] + ('\n' if case.get('newline') else '')
-        base_t, base_i = _try(m.convert_version_to_tuple, s), _try(m.convert_version_to_int, s)
+        to_t = lambda x: _try(call1, m.convert_version_to_tuple, 'convert_version_to_tuple', x, kw)
+        to_i = lambda x: _try(call1, m.convert_version_to_int, 'convert_version_to_int', x, kw)
+        base_t, base_i = to_t(s), to_i(s)
         if not isinstance(base_t, tuple):
             return None
-        got_t, got_i = _try(m.convert_version_to_tuple, s + suf), _try(m.convert_version_to_int, s + suf)
+        got_t, got_i = to_t(s + suf), to_i(s + suf)
         if got_t != base_t:
             return 'convert_version_to_tuple(%r) = %r but without the suffix %r' % (s + suf, got_t, base_t)
         if got_i != base_i:
@@ -1413,9 +1572,9 @@ def oracle(case):
     if k == 'nonnumeric':
         s = case['s']
         for f in (m.convert_version_to_tuple, m.convert_version_to_int):
-            why = _raises_valueerror(f, s)
+            why = _raises_valueerror(call1, f, f.__name__, s, kw)
             if why:
-                return '%s(%r) %s' % (f.__name__, s, why)
+                return '%s(%s%r) %s' % (f.__name__, kwn(SIGNATURES[f.__name__][0][0]), s, why)
         return None
     if k == 'compat':
         rs, cs = case.get('req_struct'), case.get('cur_struct')
@@ -1428,20 +1587,20 @@ def oracle(case):
                 except P.InvalidVersion:
                     invalid = True
         if invalid:
-            why = _raises_valueerror(m.is_compatible, case['req'], case['cur'], same_major=case['same_major'])
-            return why and 'is_compatible(%r, %r) %s' % (case['req'], case['cur'], why)
+            why = _raises_valueerror(call_compat, case)
+            return why and '%s %s' % (show_compat(case), why)
         want = vkey(cs, case['cur']) >= vkey(rs, case['req']) and \
             (not case['same_major'] or vmajor(rs, case['req']) == vmajor(cs, case['cur']))
-        got = _try(m.is_compatible, case['req'], case['cur'], same_major=case['same_major'])
+        got = _try(call_compat, case)
         if got is not want:
-            return 'is_compatible(%r, %r, same_major=%r) = %r, PEP 440 says %r' % (
-                case['req'], case['cur'], case['same_major'], got, want)
+            return '%s = %r, PEP 440 says %r (same_major %s)' % (
+                show_compat(case), got, want, 'on' if case['same_major'] else 'off')
         return None
     if k == 'pred':
         if case.get('malformed'):
             try:
-                vp = m.VersionPredicate(case['pred'])
-                r = vp.satisfied_by(case['ver'])
+                vp = call1(m.VersionPredicate, 'VersionPredicate', case['pred'], case.get('kw_init'))
+                r = call1(vp.satisfied_by, 'satisfied_by', case['ver'], kw)
             except ValueError:
                 return None
             except Exception as e:
@@ -1454,13 +1613,15 @@ def oracle(case):
         bound = (lambda v: vkey(v, None)) if cs is not None else (lambda v: pv().Version(render_v(v)))
         want = all(OPF[op](kc, bound(v)) for op, v in case['comps'])
         try:
-            got = m.VersionPredicate(case['pred']).satisfied_by(case['ver'])
+            got = call1(call1(m.VersionPredicate, 'VersionPredicate', case['pred'], case.get('kw_init')).satisfied_by,
+                        'satisfied_by', case['ver'], kw)
         except Exception as e:
             got = e
         if got is not want:
             each = ['%s%s:%s' % (op, render_v(v), OPF[op](kc, bound(v))) for op, v in case['comps']]
-            return 'VersionPredicate(%r).satisfied_by(%r) = %r, the comparisons give %s' % (
-                case['pred'], case['ver'], got, ' '.join(each))
+            return 'VersionPredicate(%s%r).satisfied_by(%s%r) = %r, the comparisons give %s' % (
+                'predicate_str=' if case.get('kw_init') else '', case['pred'], kwn('version_str'), case['ver'], got,
+                ' '.join(each))
         return None
     raise KeyError(k)
 
@@ -1470,6 +1631,13 @@ def in_domain(t):
 
 
 def gen_search_case(rng):
+    c = _gen_search_case(rng)
+    if c['prop'] in ('roundtrip', 'order', 'suffix', 'nonnumeric', 'spec') and rng.random() < 0.2:
+        c['kw'] = True
+    return c
+
+
+def _gen_search_case(rng):
     if rng.random() < 0.2:
         return gen_sat_sequence(rng) if rng.random() < 0.6 else gen_call_sequence(rng)
     x = rng.random()
@@ -1560,6 +1728,18 @@ def fixed_cases():
         for sm in (True, False):
             out.append({'prop': 'compat', 'fn': 'compat', 'req': render_v(r), 'cur': render_v(c), 'same_major': sm,
                         'req_struct': r, 'cur_struct': c})
+    # every legal call form of is_compatible x every spelling of the truth value, where the flag decides
+    for r, c in [(V(1, 0), V(2, 0)), (V(2, 0), V(1, 0)), (V(1, 5), V(1, 5))]:
+        for sm in (False, True):
+            logical = {'requested_version': '', 'current_version': '', 'same_major': sm}
+            for form in applicable_forms('is_compatible', logical):
+                for flag in range(len(FLAG_VALUES[sm])):
+                    out.append({'prop': 'compat', 'fn': 'compat', 'req': render_v(r), 'cur': render_v(c), 'same_major': sm,
+                                'req_struct': r, 'cur_struct': c, 'form': form, 'flag': flag})
+    for kwi in (False, True):
+        for kwc in (False, True):
+            out.append({'prop': 'pred', 'fn': 'pred', 'comps': [['>=', V(1, 5)], ['<', V(3)]], 'pred': '>=1.5,<3',
+                        'ver': '2.0', 'ver_struct': V(2, 0), 'malformed': None, 'kw_init': kwi, 'kw': kwc})
     for op in OPS:
         for cand in (V(1, 0), V(1, 5), V(2, 0)):
             out.append({'prop': 'pred', 'fn': 'pred', 'comps': [[op, V(1, 5)]], 'pred': op + '1.5',
@@ -1583,30 +1763,32 @@ def shrink(case):
         except Exception:
             return False
     if k == 'roundtrip':
-        t = common.shrink_list(case['t'], lambda sub: in_domain(sub) and fails({'prop': k, 't': sub}))
+        t = common.shrink_list(case['t'], lambda sub: in_domain(sub) and fails(dict(case, t=sub)))
         for i in range(len(t)):
             for v in (1 if i == 0 else 0, 1, 9, 10, 99, 100):
                 c = t[:i] + [v] + t[i + 1:]
-                if v < t[i] and in_domain(c) and fails({'prop': k, 't': c}):
+                if v < t[i] and in_domain(c) and fails(dict(case, t=c)):
                     t = c
                     break
-        return {'prop': k, 't': t}
+        return dict(case, t=t)
     if k == 'order':
         a, b = list(case['a']), list(case['b'])
         i = 0
         while i < len(a) and len(a) > 1:
-            c = {'prop': k, 'a': a[:i] + a[i + 1:], 'b': b[:i] + b[i + 1:]}
+            c = dict(case, a=a[:i] + a[i + 1:], b=b[:i] + b[i + 1:])
             if fails(c):
                 a, b = c['a'], c['b']
             else:
                 i += 1
-        return {'prop': k, 'a': a, 'b': b}
+        return dict(case, a=a, b=b)
     if k == 'spec':
-        chars = common.shrink_list(list(case['s']), lambda sub: fails({'prop': k, 's': ''.join(sub)}))
-        return {'prop': k, 's': ''.join(chars)}
+        chars = common.shrink_list(list(case['s']), lambda sub: fails(dict(case, s=''.join(sub))))
+        return dict(case, s=''.join(chars))
     if k in ('compat', 'pred'):
         for c in fixed_cases():
-            if c['prop'] == k and bool(c.get('malformed')) == bool(case.get('malformed')) and fails(c):
+            c = dict(c, **{f: case[f] for f in ('form', 'flag', 'kw', 'kw_init') if f in case})
+            if c['prop'] == k and bool(c.get('malformed')) == bool(case.get('malformed')) and \
+                    (k != 'compat' or c['same_major'] == case['same_major']) and fails(c):
                 return c
     if k == 'pred' and not case.get('malformed') and len(case.get('comps', [])) > 1:
         for i in range(len(case['comps'])):
@@ -1709,18 +1891,22 @@ def replay_seq(ctx, case):
     outs = run_calls_fresh(case) or run_calls(case)
     print('predicate:', repr(case.get('pred')))
     model = None
-    if case.get('pred') is not None and all(c['op'] == 'sat' for c in case['calls']):
-        strings = list(dict.fromkeys(c['ver'] for c in case['calls']))
+    if case.get('pred') is not None and all(c['op'] in ('sat', 'clone') for c in case['calls']):
+        strings = list(dict.fromkeys(c['ver'] for c in case['calls'] if c['op'] == 'sat'))
         for _ in range(2):
             rep = ctx.driver.ask(seq_line(case, strings)[0])
             if not rep.startswith('need:'):
                 break
             strings = strings + [common.unhexs(h) for h in rep[5:].split(',')]
         model = rep.split('\t')[0].split(';')
+    nsat = 0
     for k, c in enumerate(case['calls']):
         o = outs[k]['out'] if k < len(outs) else (outs[0]['out'] if outs else '?')
-        print('call %d  %-60s implementation: %-22s%s' % (
-            k + 1, _show_call(c), o, '' if model is None else ' model: ' + (model[k] if k < len(model) else model[0])))
+        mtxt = ''
+        if model is not None and c['op'] == 'sat':
+            mtxt = ' model: ' + (model[nsat] if nsat < len(model) else model[0])
+            nsat += 1
+        print('call %d  %-60s implementation: %-22s%s' % (k + 1, _show_call(c), o, mtxt))
     why = judge_calls(case, outs)
     print('property oracle on the implementation (fresh interpreter):', why or 'holds')
     return 1 if why else 0
